@@ -37,6 +37,13 @@ def run(chk: Check, proj: Project) -> None:
     s2(chk, proj, m, cls)
     s3(chk, proj, m, cls)
     s4(chk, proj)
+    s5_instance_state(chk, proj, m, cls)
+    from . import C07
+    from .common import world
+
+    w_ = world(proj)
+    chk.borrow("S6", "a cached Template is transparent only if rendering it does not depend on earlier renders: Node objects of the library store nothing on themselves at render time (a memo on a Node lives as long as the template stays cached - e.g. the component class looked up once survives a re-registration of the name) (shared with C07-S1-A2)",
+               lambda sub: C07.s1a_nodes(sub, proj, w_, set()), only=lambda o: "Node" in o.construct or "node" in o.construct)
     s5_accessors(chk, proj, ["TEMPLATE_CACHE_SIZE"], rule="S5")
     cm, cf = proj.func("cache", "get_template_cache")
     c = calls(cf, "LRUCache")
@@ -291,6 +298,20 @@ def s3(chk: Check, proj: Project, m, cls) -> None:
     chk.ob("S3", "util.cache:LRUCache.clear:resets", m.loc(c), okc, "clear() empties the dict and re-links the sentinels")
     h = _method(m, cls, "has")
     chk.ob("S3", "util.cache:LRUCache.has", m.loc(h), any(norm(s) == "return key in self.cache" for s in stmts(h)), "has() is membership in the dict")
+
+
+def s5_instance_state(chk: Check, proj: Project, m, cls) -> None:
+    chk.rule("S5", "every LRUCache instance owns its table and its list: the dict and both sentinels are created in __init__ (a mutable class attribute would be shared by all caches: foreign keys, wrong size, clear() wiping the others)")
+    init = _method(m, cls, "__init__")
+    chk.analysed(fkey(m, init))
+    own = {t.attr for st in stmts(init) if isinstance(st, (ast.Assign, ast.AnnAssign)) for t in ([st.target] if isinstance(st, ast.AnnAssign) else st.targets) if isinstance(t, ast.Attribute) and norm(t.value) == "self"}
+    used = {x.attr for fn in cls.body if isinstance(fn, ast.FunctionDef) for x in ast.walk(fn) if isinstance(x, ast.Attribute) and norm(x.value) == "self" and not isinstance(getattr(x, "ctx", None), ast.Store) and x.attr in ("cache", "head", "tail", "maxsize", "_lock")}
+    shared = [st for st in cls.body if isinstance(st, (ast.Assign, ast.AnnAssign)) and getattr(st, "value", None) is not None and isinstance(st.value, (ast.Dict, ast.List, ast.Set, ast.Call))]
+    missing = sorted(used - own)
+    ok = not missing and not shared
+    chk.ob("S5", "util.cache:LRUCache:per-instance-state", m.loc(shared[0]) if shared else m.loc(init), ok,
+           f"__init__ creates {sorted(own & used)} for every instance; the class body holds no mutable default" if ok else
+           f"{'`' + short(shared[0]) + '` in the class body' if shared else 'self.' + missing[0] + ' is never assigned in __init__'}: the key -> node table is ONE object shared by every LRUCache in the process - a fresh cache reports another cache's keys, the size test counts foreign entries and clear() empties them all")
 
 
 def s4(chk: Check, proj: Project) -> None:
